@@ -67,6 +67,10 @@ def pRanges (ts : List String) : Option (List TimeRange) :=
   | some (rs, []) => some rs
   | _ => none
 
+/-- day ranges without their comments (C01 is about kinds; comments are C17's business) -/
+def showRangesKinds (rs : List TimeRange) : List String :=
+  toString rs.length :: rs.flatMap (fun r => [toString r.s, toString r.e, kindTok r.kind])
+
 /-- `c01.sched`: the C01 oracle on the implementation's output, then model agreement -/
 def handleC01 (args impl : List String) : Option String :=
   match impl with
@@ -81,7 +85,8 @@ def handleC01 (args impl : List String) : Option String :=
       else match pRanges res with
       | none => none
       | some rs =>
-        let m := runM (match daySchedule ctx e d with | .ok s => .ok (showRanges s) | .error p => .error p)
+        let m := runM (match daySchedule ctx e d with | .ok s => .ok (showRangesKinds s) | .error p => .error p)
+        let res := showRangesKinds rs
         if !(OH.Spec.exprDefined e) then
           (if sameOut m res then some "ok undefined-range" else some s!"disagree model={joinSp m}")
         else if !(OH.Spec.tilesFrom 0 rs) then some s!"fail tiling model={joinSp m}"
@@ -91,7 +96,7 @@ def handleC01 (args impl : List String) : Option String :=
             some s!"fail spec{cls} minute={mm} spec={kindTok (OH.Spec.dayState ctx e d mm)} model={joinSp m}"
           | none =>
             if sameOut m res then
-              some ("ok " ++ (match res with | ["1", _, _, "c", "0"] => "allclosed" | _ => exprTag e))
+              some ("ok " ++ (match res with | ["1", _, _, "c"] => "allclosed" | _ => exprTag e))
             else s!"disagree model={joinSp m}"
   | _, _ => none
 
